@@ -119,6 +119,28 @@ def replay(item):
                     tool_written[name] = True
                 if not ok and not note:
                     note = "errors=%s" % json.dumps(r.get("errors"))[:200]
+            elif act in ("cli_write", "cli_amend"):
+                argv = ["write", p]
+                if act == "cli_amend":
+                    argv += ["--changes", json.dumps(pyreq([arg["req"]], False)[0])]
+                else:
+                    argv += ["--content", lines_text(arg["lines"], arg["final"])]
+                if arg["hash"] == "match":
+                    argv += ["--base-hash", hashlib.sha256(before[name]).hexdigest()]
+                elif arg["hash"] == "stale":
+                    argv += ["--base-hash", "0" * 64]
+                rr = CliRunner().invoke(cli, argv, catch_exceptions=True)
+                ok = rr.exit_code == 0
+                note = "exit=%s %s" % (rr.exit_code, rr.output[-200:])
+                tool_written[name] = tool_written[name] or ok
+            elif act == "validate_fix":
+                r = run_async(st["v"].execute(file_path=p, schema="META", fix=True))
+                ok = r.get("status") == "success"
+                echo = r.get("validation_status") in ("VALIDATED", "INVALID")
+            elif act == "cli_verify":
+                rr = CliRunner().invoke(cli, ["validate", p, "--verify-seal"], catch_exceptions=True)
+                ok = rr.exit_code == 0
+                note = "exit=%s %s" % (rr.exit_code, rr.output[-200:])
             elif act == "validate":
                 r = run_async(st["v"].execute(content=before[name].decode("utf-8"), schema="META"))
                 ok = r.get("status") == "success"
@@ -177,11 +199,11 @@ def lives(ctx):
     # every life of 2 steps over a one-item document
     take(ctx.model("OctaveSystem", tag="System_short", constants=dict(base, MaxItems=1, MaxDepth=0, Feat=set(), PoolA={"w"}, MaxSteps=2,
                                                                          SysReqs="@SysReqsSmall" if not ctx.thorough else "@SysReqsAll"),
-                   init="SInit", next_="SNext", invariants=["EmitLife", "RefusedChangesNothing", "SealFollowsContent"], required_actions=["SGrow", "Serve"], heap="8g"))
+                   init="SInit", next_="SNext", invariants=["EmitLife", "RefusedChangesNothing", "ReadersChangeNothing", "SealFollowsContent"], required_actions=["SGrow", "Serve"], heap="8g"))
     # long lives by simulation
     n, depth = (400, 14) if ctx.thorough else (60, 10)
     take(ctx.model("OctaveSystem", tag="System_sim", constants=dict(base, HeaderMode="all", HeaderMaxBody=1, MaxSteps=depth - 3), init="SInit", next_="SNext",
-                   invariants=["EmitLife", "RefusedChangesNothing", "SealFollowsContent"], simulate="num=%d" % n, depth=depth + 4, workers=1,
+                   invariants=["EmitLife", "RefusedChangesNothing", "ReadersChangeNothing", "SealFollowsContent"], simulate="num=%d" % n, depth=depth + 4, workers=1,
                    seed=ctx.seed if ctx.seed is not None else 20260926, heap="8g"))
     return out
 
@@ -206,7 +228,7 @@ def run_system(ctx):
     for r in recs:
         if r["i"] in fails:
             lf = ls[r["life"]]
-            hist = [{"act": s["act"], "path": s["path"], "hash": s["arg"]["hash"], "req": s["arg"]["req"] if s["act"] in ("amend", "dry_amend", "write_mutated") else "-",
+            hist = [{"act": s["act"], "path": s["path"], "hash": s["arg"]["hash"], "req": s["arg"]["req"] if s["act"] in ("amend", "dry_amend", "write_mutated", "cli_amend") else "-",
                      "content": lines_text(s["arg"]["lines"], s["arg"]["final"]) if s["arg"]["lines"] else ""} for s in lf["log"][:r["j"] + 1]]
             failures.append({"i": r["i"], "case": {"system_life": hist}, "obs": dict(r["obs"], note=r["note"]), "fails": ["System:" + c for c in fails[r["i"]]],
                              "system": True})
